@@ -1036,9 +1036,21 @@ class LinkAccessor(WritableAccessor[T_co], PhysicalAccessor[T_co]):
         if self.tag is None:
             raise NotImplementedError("Cannot set: XML tag not set")
 
+        loader = obj._model._loader
+        old = [(obj._element.index(i), i) for i in self.__find_refs(obj)]
         self.__delete__(obj)
-        for v in value:
-            self.__create_link(obj, v)
+        created: list[etree._Element] = []
+        try:
+            for v in value:
+                created.append(self.__create_link(obj, v))
+        except BaseException:
+            for i in created:
+                loader.idcache_remove(i)
+                obj._element.remove(i)
+            for index, i in old:
+                obj._element.insert(index, i)
+                loader.idcache_index(i)
+            raise
 
     def __delete__(self, obj: _obj.ModelObject) -> None:
         refobjs = list(self.__find_refs(obj))
